@@ -2,7 +2,7 @@ from checkdef import part
 SPEC = {
     "level": "model_checking",
     "parts": [part("c04_abf", "plain", ["c04_abf.cpp"], timeout={"quick": 1500, "thorough": 7200})],
-    "rule": "17 ABF configurations (integrate off; scaledBiasingForce with factors read from a file, with and without ramp; 1-D with ramp 0/1 and 1/3, applyBias off, maxForce, a second bias on the same variable "
+    "rule": "18 ABF configurations (hideJacobian at 300 K; integrate off; scaledBiasingForce with factors read from a file, with and without ramp; 1-D with ramp 0/1 and 1/3, applyBias off, maxForce, a second bias on the same variable "
             "with and without subtractAppliedForce, Jacobian term at 300 K, periodic 1-D with maxForce and ramp, 2-D, and 1-D/2-D with the "
             "grid given by a grid { } block wider than the variables' own boundaries) x ALL words of length 3 "
             "(thorough 4) over {bin 0, bin 1, exact bin edge, below, above} x {-1,+2} system force x {lagged, same-step} x "
